@@ -174,7 +174,7 @@ def gen_world(rng):
     if glob_kind == "toml" and rng.chance(0.4):
         # a REUSE.toml hierarchy: the nearest file that provides the information wins for 'closest', the topmost
         # 'override' hides the deeper file - whatever the directory is called
-        D = rng.pick(["3rdparty", "Docs", "EXTERNAL", ".ci", "Qt", "vendor", "zlib", "A", "-x", "src/0core"])
+        D = rng.pick(["3rdparty", "Docs", "EXTERNAL", ".ci", "Qt", "vendor", "zlib", "A", "+x", "src/0core"])
         used = {strip_plus(i) for e in entries for x in e["l"] for i in ids_of(x)}
         expr_n = rng.pick(G.VALID)
         holder_n, holder_r = "2017 Nested Holder", "2018 Root Holder"
